@@ -594,6 +594,66 @@ pub proof fn lemma_hdr_inv_step(hp: Header, h: Header, v: Value, n: int, d: nat)
         if label_of(m[i].0) == Some(l) { assert(has_label(m, n, l)); }
     }
 }
+// ---- C12 (decode, error kind): when the first defect in wire order is a repeated label, the error is DuplicateMapKey
+pub open spec fn iv_both_prefix(v: Value, n: int) -> bool { has_label(map_of(v), n, Label::Int(5)) && has_label(map_of(v), n, Label::Int(6)) }
+/// pairs 0..n are individually acceptable, pairwise distinct and not IV+Partial IV, and pair n repeats one of their labels
+pub open spec fn hdr_dup_at(v: Value, n: int, d: nat) -> bool {
+    0 <= n < map_of(v).len() && hdr_prefix_ok(v, n, d) && hdr_labels_distinct(map_of(v).subrange(0, n)) && !iv_both_prefix(v, n)
+    && (label_of(map_of(v)[n].0) matches Some(l) && has_label(map_of(v), n, l))
+}
+#[verifier::opaque]
+pub open spec fn hdr_no_dup(v: Value, d: nat) -> bool { forall |n: int| !hdr_dup_at(v, n, d) }
+proof fn lemma_distinct_prefix_no_dup(v: Value, k: int, d: nat, n: int)
+    requires 0 <= n < k <= map_of(v).len(), hdr_labels_distinct(map_of(v).subrange(0, k)),
+    ensures !hdr_dup_at(v, n, d),
+{
+    reveal(hdr_labels_distinct);
+    let ms = map_of(v);
+    if label_of(ms[n].0) is Some && has_label(ms, n, label_of(ms[n].0)->0) {
+        let i = choose |i: int| 0 <= i < n && #[trigger] label_of(ms[i].0) == Some(label_of(ms[n].0)->0);
+        assert(ms.subrange(0, k)[i] == ms[i] && ms.subrange(0, k)[n] == ms[n]);
+        assert(label_of(ms.subrange(0, k)[i].0) != label_of(ms.subrange(0, k)[n].0));
+    }
+}
+/// an error raised for pair k itself (bad label, or bad value after the duplicate check passed) is not a duplicate situation
+pub proof fn lemma_bad_pair_no_dup(v: Value, k: int, d: nat)
+    requires 0 <= k < map_of(v).len(), hdr_labels_distinct(map_of(v).subrange(0, k)),
+        label_of(map_of(v)[k].0) matches Some(l) ==> !has_label(map_of(v), k, l),
+    ensures !hdr_pair_ok(map_of(v)[k].0, map_of(v)[k].1, d) ==> hdr_no_dup(v, d),
+{
+    reveal(hdr_no_dup);
+    if !hdr_pair_ok(map_of(v)[k].0, map_of(v)[k].1, d) {
+        assert forall |n: int| !hdr_dup_at(v, n, d) by {
+            if 0 <= n < k { lemma_distinct_prefix_no_dup(v, k, d, n); }
+        }
+    }
+}
+pub proof fn lemma_iv_both_no_dup(v: Value, k: int, d: nat)
+    requires 0 <= k <= map_of(v).len(), hdr_labels_distinct(map_of(v).subrange(0, k)), iv_both_prefix(v, k),
+    ensures hdr_no_dup(v, d),
+{
+    reveal(hdr_no_dup);
+    let ms = map_of(v);
+    assert forall |n: int| !hdr_dup_at(v, n, d) by {
+        if 0 <= n < k { lemma_distinct_prefix_no_dup(v, k, d, n); }
+        else if k <= n < ms.len() {
+            let i5 = choose |i: int| 0 <= i < k && #[trigger] label_of(ms[i].0) == Some(Label::Int(5));
+            let i6 = choose |i: int| 0 <= i < k && #[trigger] label_of(ms[i].0) == Some(Label::Int(6));
+            assert(has_label(ms, n, Label::Int(5)) && has_label(ms, n, Label::Int(6)));
+        }
+    }
+}
+pub proof fn lemma_all_distinct_no_dup(v: Value, d: nat)
+    requires hdr_labels_distinct(map_of(v).subrange(0, map_of(v).len() as int)),
+    ensures hdr_no_dup(v, d),
+{
+    reveal(hdr_no_dup);
+    assert forall |n: int| !hdr_dup_at(v, n, d) by { if 0 <= n < map_of(v).len() { lemma_distinct_prefix_no_dup(v, map_of(v).len() as int, d, n); } }
+}
+pub proof fn lemma_not_map_no_dup(v: Value, d: nat)
+    requires !(v is Map),
+    ensures hdr_no_dup(v, d),
+{ reveal(hdr_no_dup); }
 pub proof fn lemma_dup_not_distinct(ms: Seq<(Value, Value)>, n: int, label: Label)
     requires 0 <= n < ms.len(), label_of(ms[n].0) == Some(label), has_label(ms, n, label),
     ensures !hdr_labels_distinct(ms),
@@ -631,6 +691,10 @@ pub proof fn lemma_iv_both(h: Header, v: Value, n: int, d: nat)
     assert(has_label(m, m.len() as int, Label::Int(5)));
     assert(has_label(m, m.len() as int, Label::Int(6)));
 }
+pub proof fn lemma_iv_both_witness(h: Header, v: Value, n: int, d: nat)
+    requires v is Map, 0 <= n <= map_of(v).len(), hdr_inv(h, v, n, d), h.iv@.len() > 0, h.partial_iv@.len() > 0,
+    ensures iv_both_prefix(v, n),
+{ reveal(hdr_flat_ok); }
 pub proof fn lemma_hdr_final(h: Header, v: Value, d: nat)
     requires
         v is Map,
@@ -663,10 +727,12 @@ impl Header {«
         ensures
             r is Ok <==> hdr_ok(value, depth as nat),
             r matches Ok(h) ==> hdr_res(value, depth as nat, h),
+            !hdr_no_dup(value, depth as nat) ==> (r matches Err(e) && e is DuplicateMapKey),
         decreases max_nest() - depth, value, 5nat» {«
         let ghost val0 = value;
         let ghost d = depth as nat;
-        broadcast use axiom_question_mark_uses_from;»
+        broadcast use axiom_question_mark_uses_from;
+        proof { if !(val0 is Map) { lemma_not_map_no_dup(val0, d); } }»
         let m = value.try_as_map()?;«
         let ghost ms = m@;»
         let mut headers = Self::default();
@@ -691,6 +757,7 @@ impl Header {«
             proof {
                 assert(l == ms[n].0 && value == ms[n].1);
                 assert(hdr_ok(val0, d) ==> hdr_pair_ok(ms[n].0, ms[n].1, d));
+                if label_of(ms[n].0) is None { lemma_bad_pair_no_dup(val0, n, d); }
             }»
             // The `ciborium` CBOR library does not police duplicate map keys.
             // RFC 8152 section 14 requires that COSE does police duplicates, so do it here.
@@ -700,6 +767,7 @@ impl Header {«
                 proof { lemma_dup_not_distinct(ms, n, label); }»
                 return Err(CoseError::DuplicateMapKey);
             }
+            «proof { lemma_bad_pair_no_dup(val0, n, d); }»
             seen.insert(label.clone());
             match label {
                 ALG => headers.alg = Some(Algorithm::from_cbor_value(value)?),
@@ -832,14 +900,14 @@ impl Header {«
             // RFC 8152 section 3.1: "The 'Initialization Vector' and 'Partial Initialization
             // Vector' parameters MUST NOT both be present in the same security layer."
             if !headers.iv.is_empty() && !headers.partial_iv.is_empty() {«
-                proof { lemma_iv_both(headers, val0, n + 1, d); }»
+                proof { lemma_iv_both(headers, val0, n + 1, d); lemma_iv_both_witness(headers, val0, n + 1, d); lemma_iv_both_no_dup(val0, n + 1, d); }»
                 return Err(CoseError::UnexpectedItem(
                     "IV and partial-IV specified",
                     "only one of IV and partial IV",
                 ));
             }
         }«
-        proof { lemma_hdr_final(headers, val0, d); }»
+        proof { lemma_hdr_final(headers, val0, d); lemma_all_distinct_no_dup(val0, d); }»
         Ok(headers)
     }
 }
@@ -848,6 +916,7 @@ impl AsCborValue for Header {«
     open spec fn dec_rel(value: Value, r: Result<Self>) -> bool {
         (r is Ok <==> hdr_ok(value, 0))
         && (r matches Ok(h) ==> hdr_res(value, 0, h))
+        && (!hdr_no_dup(value, 0) ==> (r matches Err(e) && e is DuplicateMapKey))
     }
     open spec fn enc_rel(self, r: Result<Value>) -> bool {
         (r is Ok <==> hdr_encodable(self)) && (r matches Ok(v) ==> vv(v) == hdr_cv(self))
